@@ -72,10 +72,36 @@ func genHist(t *rapid.T) CaseHist {
 	if vkit.Thorough() {
 		cfg.MaxNodes = 8
 	}
-	mode := []string{"pregel", "pregel", "dag", "workflow"}[rapid.IntRange(0, 3).Draw(t, "mode")]
-	c := CaseHist{Spec: gkit.GenTop(t, mode, cfg)}
-	c.Input = gkit.GenInput(t, c.Spec.In)
-	addInterrupts(t, c.Spec, rapid.SampledFrom([]int{10, 25, 25, 50}).Draw(t, "intWeight"))
+	var c CaseHist
+	if rapid.IntRange(0, 9).Draw(t, "deepLoop") == 0 {
+		// directed: three graph levels; the middle graph loops through the innermost graph node, and the
+		// innermost graph (stateful or not) is interrupted inside
+		inner := &gkit.Spec{Mode: "pregel", In: "S", Out: "S", State: rapid.Bool().Draw(t, "innerState"),
+			Nodes: []gkit.NodeSpec{{Key: "a", Kind: "lambda", In: "S", Digest: true}, {Key: "b", Kind: "lambda", In: "S", Digest: true}},
+			Edges: []gkit.Edge{{From: "start", To: "a"}, {From: "a", To: "b"}, {From: "b", To: "end"}}}
+		if inner.State {
+			inner.Nodes[0].PS = rapid.Bool().Draw(t, "psA")
+			inner.Nodes[1].PostH = []string{"", "v"}[rapid.IntRange(0, 1).Draw(t, "postB")]
+		}
+		mid := &gkit.Spec{Mode: "pregel", In: "S", Out: "S", State: rapid.Bool().Draw(t, "midState"),
+			Nodes:    []gkit.NodeSpec{{Key: "g", Kind: "graph", In: "S", Sub: inner}, {Key: "l", Kind: "lambda", In: "S", Digest: true}},
+			Edges:    []gkit.Edge{{From: "start", To: "g"}, {From: "g", To: "l"}},
+			Branches: []gkit.Branch{{From: "l", Targets: []string{"end", "g"}, Salt: rapid.IntRange(0, 15).Draw(t, "loopSalt")}}}
+		top := &gkit.Spec{Mode: "pregel", In: "S", Out: "S", State: rapid.Bool().Draw(t, "topState"),
+			Nodes: []gkit.NodeSpec{{Key: "m", Kind: "graph", In: "S", Sub: mid}},
+			Edges: []gkit.Edge{{From: "start", To: "m"}, {From: "m", To: "end"}}}
+		c = CaseHist{Spec: top}
+		c.Input = gkit.GenInput(t, "S")
+		addInterrupts(t, c.Spec, 50)
+		if len(inner.IntBefore)+len(inner.IntAfter) == 0 {
+			inner.IntAfter = []string{"a"}
+		}
+	} else {
+		mode := []string{"pregel", "pregel", "dag", "workflow"}[rapid.IntRange(0, 3).Draw(t, "mode")]
+		c = CaseHist{Spec: gkit.GenTop(t, mode, cfg)}
+		c.Input = gkit.GenInput(t, c.Spec.In)
+		addInterrupts(t, c.Spec, rapid.SampledFrom([]int{10, 25, 25, 50}).Draw(t, "intWeight"))
+	}
 	n := rapid.IntRange(1, 4).Draw(t, "nPar")
 	for i := 0; i < n; i++ {
 		c.Paradigms = append(c.Paradigms, []string{"invoke", "invoke", "stream"}[rapid.IntRange(0, 2).Draw(t, "par")])
@@ -208,6 +234,27 @@ func infoAt(info *compose.InterruptInfo, path []string) *compose.InterruptInfo {
 		cur = cur.SubGraphs[p]
 	}
 	return cur
+}
+
+// containsValue: does the canonical input contain the canonical output out as a whole value?  Outputs start
+// with the node's tag ("n2(...)"), and the output of a nested node of the same key ("n0/n2(...)") contains that
+// text too: an occurrence preceded by '/' or a key character belongs to another node's output.
+func containsValue(in, out string) bool {
+	for from := 0; ; {
+		i := strings.Index(in[from:], out)
+		if i < 0 {
+			return false
+		}
+		i += from
+		if i == 0 {
+			return true
+		}
+		c := in[i-1]
+		if !(c == '/' || (c >= 'a' && c <= 'z') || (c >= 'A' && c <= 'Z') || (c >= '0' && c <= '9')) {
+			return true
+		}
+		from = i + 1
+	}
 }
 
 func splitTag(tag string) ([]string, string) {
@@ -436,10 +483,29 @@ func checkHistory(c CaseHist, which string) (*vkit.Failure, vkit.Meta) {
 							if later.Call != ev.Call {
 								break
 							}
-							lp, _ := splitTag(later.Node)
+							lp, lk := splitTag(later.Node)
 							if len(lp) < len(path) && strings.HasPrefix(strings.Join(path, "/")+"/", strings.Join(lp, "/")+slashIf(lp)) {
 								info = &compose.InterruptInfo{AfterNodes: []string{key}}
 								break
+							}
+							if later.Phase == "start" && strings.Join(lp, "/") == strings.Join(path, "/") {
+								// a node entered from START starts again in this nested graph: a new execution of the graph
+								// node, so the one this event belongs to has finished (the report describes the new one)
+								fromStart := false
+								for _, e := range sp.Edges {
+									if e.From == gkit.Start && e.To == lk {
+										fromStart = true
+									}
+								}
+								for _, br := range sp.Branches {
+									if br.From == gkit.Start && contains(br.Targets, lk) {
+										fromStart = true
+									}
+								}
+								if fromStart {
+									info = &compose.InterruptInfo{AfterNodes: []string{key}}
+									break
+								}
 							}
 						}
 					}
@@ -458,6 +524,35 @@ func checkHistory(c CaseHist, which string) (*vkit.Failure, vkit.Meta) {
 									info = &compose.InterruptInfo{AfterNodes: []string{key}}
 								}
 							}
+						}
+					}
+					if len(path) > 0 && info != nil && !contains(info.AfterNodes, key) && len(info.AfterNodes) == 0 {
+						// the nested run may have finished with this node (it leads to END) and the graph node was
+						// started again and interrupted before any body of the new execution ran (e.g. an
+						// interrupt-before two levels down): nothing after this event at or below this path
+						toEnd := false
+						for _, e := range sp.Edges {
+							if e.From == key && e.To == gkit.End {
+								toEnd = true
+							}
+						}
+						for _, br := range sp.Branches {
+							if br.From == key && contains(br.Targets, gkit.End) {
+								toEnd = true
+							}
+						}
+						quiet := true
+						prefix := strings.Join(path, "/") + "/"
+						for _, later := range events[i+1:] {
+							if later.Call != ev.Call {
+								break
+							}
+							if strings.HasPrefix(later.Node, prefix) {
+								quiet = false
+							}
+						}
+						if toEnd && quiet && (len(info.BeforeNodes) > 0 || len(info.SubGraphs) > 0) {
+							info = &compose.InterruptInfo{AfterNodes: []string{key}}
 						}
 					}
 					if len(path) > 0 && ref.IsOptionalTag(ev.Node) {
@@ -505,7 +600,7 @@ func checkHistory(c CaseHist, which string) (*vkit.Failure, vkit.Meta) {
 									break
 								}
 							}
-							if later.Phase == "start" && later.Node != ev.Node && strings.Contains(later.In, ev.Out) {
+							if later.Phase == "start" && later.Node != ev.Node && containsValue(later.In, ev.Out) {
 								return &vkit.Failure{Kind: "successor-ran-after-interrupt-after", Sig: "successor-ran-after-interrupt-after",
 									Msg: fmt.Sprintf("node %s (interrupt-after) completed in call %d and %s started afterwards in the same call on input %q", ev.Node, ev.Call, later.Node, vkit.Short(later.In, 120))}
 							}
